@@ -318,7 +318,7 @@ def run_waits(ctx, desc):
         nmt.state_update = cond
         # ---- wait_for_heartbeat returns on the matching message
         byte = rng.choice([5, 4, 127, 0, 0x85])
-        status, val = waits.run_waiter(lambda: nmt.wait_for_heartbeat(4), cond, lambda: rig.ext.send(0x700 + K, bytes([byte])))
+        status, val = waits.run_waiter(lambda: nmt.wait_for_heartbeat(40), cond, lambda: rig.ext.send(0x700 + K, bytes([byte])))
         ctx.count("wait_cases")
         ctx.case(("wait-heartbeat", byte))
         code = byte & 0x7F
@@ -366,7 +366,7 @@ def run_waits(ctx, desc):
         rig.ext.send(0x700 + K, b"\x05")              # (and whatever was received before the wait does not matter)
 
         def waiter():
-            nmt.wait_for_bootup(4)
+            nmt.wait_for_bootup(40)
             return "ok"
 
         def deliver():
